@@ -126,9 +126,14 @@ def check_property(pid, tier, seed):
             for line in cases:
                 cid = line.split(' ')[1]
                 kind = line.split(' ')[0]
-                if kind in getattr(prop, 'impl_only_kinds', ()) or kind in getattr(prop, 'model_only_kinds', ()):
+                if kind in getattr(prop, 'model_only_kinds', ()):
                     continue
                 itd = impl_dbg.get(cid)
+                if kind in getattr(prop, 'impl_only_kinds', ()):
+                    vd = prop.monitor(line, itd or '', line)
+                    if vd:
+                        monitor_hits.append((cid, vd + ' [debug build]', itd))
+                    continue
                 if itd is None or itd.startswith('bad-case'):
                     continue
                 itd_c = itd.split(' ## ')[0]
